@@ -70,6 +70,16 @@ claim("C19", "exploration",
       "Trusted: vf.exact ordinals. For unique=False (repeats allowed by design) order is not judged.",
       "DESIGN.md section 3 C19")
 
+claim("C18", "exploration",
+      "history monitor: real nested with/decorator uses observed by an independent MXCSR probe; register-algebra oracle; depth<=2 exhaustive",
+      "Nested enter/exit histories (inline with, decorator and pre-built context objects created under a different ambient state, sequential re-use, "
+      "exceptions raised at any depth and caught at any ancestor) run against the real fpu.context; an independent C probe (_mm_getcsr) reads the register "
+      "before/inside/after every level, and float32 arithmetic on bit patterns in C observes FTZ/DAZ/rounding inside and after exit. All 45 argument "
+      "combinations and all 2025 ordered pairs x 3 exit kinds are enumerated; random trees to depth 6 beyond that.",
+      "Trusted: MXCSR bit layout; the C probe; status flags (bits 0-5) are masked when judging 'only requested bits change' on entry (the body's arithmetic sets "
+      "them) but not when judging exact restoration on exit. Re-entering one context object while it is active is refused loudly by the package (AssertionError) and counted as a refusal.",
+      "DESIGN.md section 3 C18")
+
 SOURCE_COMMITS = []
 
 
